@@ -117,6 +117,23 @@ pub fn exec(case: &[i64]) -> Outcome {
       if let Some(x) = r { if let Some(w) = accepted_checks(x) { o = o.fail(w); } }
       o
     }
+    5 => {
+      // checked arithmetic with a Duration that arrived through serde ([seconds, nanoseconds]: negative and fractional spans exist on this route)
+      let (t0, op, secs, nanos) = (v[0], v[1], v[2], v[3]);
+      let t = match Timestamp::from_unix(t0) { Ok(t) => t, Err(_) => return Outcome::new(vec![-1]).class("arith-bad-start").trivial() };
+      let d: Duration = match serde_json::from_value(serde_json::json!([secs, nanos])) { Ok(d) => d, Err(_) => return Outcome::new(vec![-2]).class("duration-not-deserialisable").trivial() };
+      let r = if op == 0 { t.checked_add(d) } else { t.checked_sub(d) };
+      let total: i128 = secs as i128 * 1_000_000_000 + nanos as i128;
+      let exact_ns: i128 = t0 as i128 * 1_000_000_000 + (if op == 0 { total } else { -total });
+      let exact = exact_ns.div_euclid(1_000_000_000);      // the instant truncated to the second (floor)
+      let expect = if exact >= MIN as i128 && exact <= MAX as i128 { Some(exact as i64) } else { None };
+      let got = r.map(|x| x.to_unix());
+      let obs = match got { Some(x) => vec![1, x], None => vec![0] };
+      let mut o = Outcome::new(obs).class(if got.is_some() { "arith-serde-some" } else { "arith-serde-none" });
+      if got != expect { o = o.fail("checked arithmetic with a deserialised duration differs from integer arithmetic on seconds with the range gate"); }
+      if let Some(x) = r { if let Some(w) = accepted_checks(x) { o = o.fail(w); } }
+      o
+    }
     4 => {
       let (a, b) = (v[0], v[1]);
       match (Timestamp::from_unix(a), Timestamp::from_unix(b)) {
@@ -225,6 +242,11 @@ pub fn gen(rng: &mut Rng, thorough: bool, sink: &mut Sink) {
     let k = if rng.chance(1, 3) { rng.range(0, 4294967295) } else { let room = if rng.chance(1, 2) { MAX - t } else { t - MIN }; (room / unit + rng.range(-2, 2)).clamp(0, 4294967295) };
     sink.case(vec![3, t, rng.range(0, 1), u, k], "arith-random");
   }
+  // (h2) durations that arrive through serde: negative and fractional spans, at the boundaries and at random
+  for &t in &[MIN, MIN + 1, 0, 1, MAX - 1, MAX] { for op in 0..2 { for &secs in &[0i64, 1, -1, 86400, -86400, 60, -60] { for &nanos in &[0i64, 1, -1, 999_999_999, -999_999_999, 500_000_000] {
+    sink.case(vec![5, t, op, secs, nanos], "arith-serde-edge"); } } } }
+  for _ in 0..(if thorough { 10000 } else { 800 }) { let t = rng.range(MIN, MAX); let secs = if rng.chance(1, 2) { rng.range(-1000, 1000) } else { let room = if rng.chance(1, 2) { MAX - t } else { MIN - t }; room + rng.range(-2, 2) };
+    sink.case(vec![5, t, rng.range(0, 1), secs, rng.range(-999_999_999, 999_999_999)], "arith-serde-random"); }
   // (i) ordering of pairs
   for _ in 0..(if thorough { 20000 } else { 1000 }) {
     let a = rng.range(MIN, MAX); let b = if rng.chance(1, 4) { a } else if rng.chance(1, 2) { (a + rng.range(-2, 2)).clamp(MIN, MAX) } else { rng.range(MIN, MAX) };
